@@ -17,25 +17,29 @@ import (
 
 // C16: confirmations are attributable, unique and correctly queryable.
 type C16 struct {
-	Vals   []hub.Validator // A, B bonded, C unbonded
+	Vals   []hub.Validator // A, B bonded, C unbonded, D unbonding (all with registered keys)
 	Chains []string
 	User   sdk.AccAddress
 	Stranger sdk.AccAddress
 }
 
 func NewC16() *C16 {
-	return &C16{Vals: []hub.Validator{hub.NewValidator("A"), hub.NewValidator("B"), hub.NewValidator("C")}, Chains: []string{"ethereum", "bsc"},
+	return &C16{Vals: []hub.Validator{hub.NewValidator("A"), hub.NewValidator("B"), hub.NewValidator("C"), hub.NewValidator("D")}, Chains: []string{"ethereum", "bsc"},
 		User: hub.User("u1"), Stranger: hub.User("stranger")}
 }
 
 func (c *C16) ID() string             { return "C16" }
 func (c *C16) Setup(in *hub.Instance) {}
 func (c *C16) SeedPaths() [][]engine.Op {
-	return [][]engine.Op{{}, {engine.OpN("MkBatch", "ethereum"), engine.OpN("MkBatch", "bsc"), engine.OpN("MkCall", "ethereum"), engine.OpN("MkCall", "bsc")}}
+	return [][]engine.Op{{}, {engine.OpN("MkBatch", "ethereum"), engine.OpN("MkBatch", "bsc"), engine.OpN("MkCall", "ethereum"), engine.OpN("MkCall", "bsc")},
+		// three batches of one token (nonces 1..3) and one of another token (nonce 4) on ethereum
+		{engine.OpN("MkBatch", "ethereum"), engine.OpN("MkBatch", "ethereum"), engine.OpN("MkBatch", "ethereum"), engine.OpN("MkBatch2", "ethereum")}}
 }
 func (c *C16) Genesis() hub.Genesis {
-	g := StdGenesis(c.Vals, []int64{10, 10, 0}, []sdk.AccAddress{c.User, c.Stranger}, sdk.NewCoins(sdk.NewInt64Coin("hub", 1_000_000)))
+	g := StdGenesis(c.Vals, []int64{10, 10, 0, 0}, []sdk.AccAddress{c.User, c.Stranger}, sdk.NewCoins(sdk.NewInt64Coin("hub", 1_000_000), sdk.NewInt64Coin("eth", 1_000_000)))
 	g.Staking[2].Power = 7
+	g.Staking[3].Power = 6
+	g.Staking[3].Unbonding = true
 	return g
 }
 
@@ -66,7 +70,8 @@ func (c *C16) NewGhost(in *hub.Instance) Ghost { return &c16Ghost{R: map[string]
 
 var c16Scope = []byte("scope-1")
 
-// tx refs: 0 signer set nonce 1, 1 signer set nonce 9 (unknown), 2 batch nonce 1, 3 batch nonce 9 (unknown), 4 contract call (scope,1)
+// tx refs: 0 signer set nonce 1, 1 signer set nonce 9 (unknown), 2 batch nonce 1, 3 batch nonce 9 (unknown), 4 contract call (scope,1),
+// 5 / 6 batch nonce 2 / 3 of the same token, 7 the batch of the second token (ethereum only)
 func (c *C16) Ops(s *HState) []engine.Op {
 	var ops []engine.Op
 	for _, ch := range c.Chains {
@@ -84,6 +89,14 @@ func (c *C16) Ops(s *HState) []engine.Op {
 		ops = append(ops, engine.OpN("Confirm", ch, 0, 2, 0, 0)) // stranger
 		// right tx, wrong chain in the message (confirmation built for the other chain's tx)
 		ops = append(ops, engine.OpN("Confirm", ch, 0, 1, 2, 2))
+		if ch == "ethereum" {
+			ops = append(ops, engine.OpN("MkBatch2", ch))
+			for v := 0; v < 2; v++ {
+				for ref := 5; ref <= 7; ref++ {
+					ops = append(ops, engine.OpN("Confirm", ch, v, 1, ref, 0))
+				}
+			}
+		}
 	}
 	ops = append(ops, engine.OpN("Next"))
 	return ops
@@ -129,10 +142,27 @@ func (c *C16) conf(in *hub.Instance, chain string, ref int64, signerExt string, 
 		}
 		otx := get(mhubtypes.MakeSignerSetTxKey(ch, n))
 		return &mhubtypes.SignerSetTxConfirmation{SignerSetNonce: n, ExternalSigner: signerExt, Signature: sign(otx)}, otx
-	case 2, 3:
+	case 7:
+		var found *mhubtypes.BatchTx
+		in.Hub.IterateOutgoingTxsByType(ctx, ch, mhubtypes.BatchTxPrefixByte, func(_ []byte, o mhubtypes.OutgoingTx) bool {
+			if b := o.(*mhubtypes.BatchTx); b.ExternalTokenId == EthEth && found == nil {
+				found = b
+			}
+			return false
+		})
+		if found == nil {
+			return &mhubtypes.BatchTxConfirmation{ExternalTokenId: EthEth, BatchNonce: 8, ExternalSigner: signerExt, Signature: sign(nil)}, nil
+		}
+		return &mhubtypes.BatchTxConfirmation{ExternalTokenId: EthEth, BatchNonce: found.BatchNonce, ExternalSigner: signerExt, Signature: sign(found)}, found
+	case 2, 3, 5, 6:
 		n := uint64(1)
-		if ref == 3 {
+		switch ref {
+		case 3:
 			n = 9
+		case 5:
+			n = 2
+		case 6:
+			n = 3
 		}
 		otx := get(mhubtypes.MakeBatchTxKey(ch, tokenOn(chain), n))
 		return &mhubtypes.BatchTxConfirmation{ExternalTokenId: tokenOn(chain), BatchNonce: n, ExternalSigner: signerExt, Signature: sign(otx)}, otx
@@ -163,6 +193,11 @@ func (c *C16) Do(in *hub.Instance, gg Ghost, op engine.Op, st *engine.Step) {
 		ch := op.S[0]
 		r := in.DeliverMsg(mhubtypes.NewMsgSendToExternal(mhubtypes.ChainID(ch), c.User, hub.HexAddr("r"), sdk.NewInt64Coin("hub", 1000), sdk.NewInt64Coin("hub", 5)))
 		r2 := in.DeliverMsg(&mhubtypes.MsgRequestBatchTx{ChainId: ch, Denom: "hub", Signer: c.User.String()})
+		st.Obs = fmt.Sprint(r.OK(), r2.OK())
+	case "MkBatch2":
+		ch := op.S[0]
+		r := in.DeliverMsg(mhubtypes.NewMsgSendToExternal(mhubtypes.ChainID(ch), c.User, hub.HexAddr("r"), sdk.NewInt64Coin("eth", 1000), sdk.NewInt64Coin("eth", 5)))
+		r2 := in.DeliverMsg(&mhubtypes.MsgRequestBatchTx{ChainId: ch, Denom: "eth", Signer: c.User.String()})
 		st.Obs = fmt.Sprint(r.OK(), r2.OK())
 	case "MkCall":
 		// contract calls have no message entry point; they are created through the keeper API (hooks)
@@ -309,14 +344,26 @@ func (c *C16) queries(in *hub.Instance, g *c16Ghost, st *engine.Step) {
 				}
 			}
 			cmp("SignerSetTxConfirmations", got, exp(mhubtypes.MakeSignerSetTxKey(ch, n)))
-			res2, err := in.Hub.BatchTxConfirmations(wctx, &mhubtypes.BatchTxConfirmationsRequest{BatchNonce: n, ExternalTokenId: tokenOn(chain), ChainId: chain})
-			got = map[string]string{}
+		}
+		type bref struct {
+			tok string
+			n   uint64
+		}
+		brefs := []bref{{tokenOn(chain), 9}}
+		in.Hub.IterateOutgoingTxsByType(ctx, ch, mhubtypes.BatchTxPrefixByte, func(_ []byte, o mhubtypes.OutgoingTx) bool {
+			b := o.(*mhubtypes.BatchTx)
+			brefs = append(brefs, bref{b.ExternalTokenId, b.BatchNonce})
+			return false
+		})
+		for _, br := range brefs {
+			res2, err := in.Hub.BatchTxConfirmations(wctx, &mhubtypes.BatchTxConfirmationsRequest{BatchNonce: br.n, ExternalTokenId: br.tok, ChainId: chain})
+			got := map[string]string{}
 			if err == nil {
 				for _, s := range res2.Signatures {
 					got[s.ExternalSigner] = fmt.Sprintf("%x", s.Signature)
 				}
 			}
-			cmp("BatchTxConfirmations", got, exp(mhubtypes.MakeBatchTxKey(ch, tokenOn(chain), n)))
+			cmp("BatchTxConfirmations", got, exp(mhubtypes.MakeBatchTxKey(ch, br.tok, br.n)))
 		}
 		res3, err := in.Hub.ContractCallTxConfirmations(wctx, &mhubtypes.ContractCallTxConfirmationsRequest{InvalidationScope: c16Scope, InvalidationNonce: 1, ChainId: chain})
 		got := map[string]string{}
@@ -398,7 +445,7 @@ func init() {
 			cfg = engine.Config{MaxDepth: 5, Deadline: 20 * time.Minute, ReplayLeaf: 200}
 		}
 		return NewC16(), cfg, []string{
-			"validators A, B bonded, C unbonded (all with registered keys); signers: validator account, orchestrator, stranger; tx refs: existing/unknown signer set, existing/unknown batch, contract call; claimed external signer own/other's; a confirmation built for the other chain's batch; duplicates by repetition",
+			"validators A, B bonded, C unbonded, D unbonding (all with registered keys); batches: up to three of one token plus one of a second token on ethereum; signers: validator account, orchestrator, stranger; tx refs: existing/unknown signer set, existing/unknown batch, contract call; claimed external signer own/other's; a confirmation built for the other chain's batch; duplicates by repetition",
 			"contract calls are created through keeper.CreateContractCallTx (no message creates them)",
 			"signature validity is not part of C16 as stated (SubmitTxConfirmation ignores ValidateEthereumSignature); honest signatures are used",
 			"only-if: a successful confirmation must satisfy the conditions; rejecting one is never a violation",
